@@ -106,3 +106,11 @@ fn gaps_are_the_holes(max: usize) {
     assert!(g == gaps.len(), "L7: a gap that is not a hole");
     kani::cover!(n == max && g == max - 1, "reachable: holes in front of all but one datum");
 }
+
+// `./check --replay` writes Kani's counterexample (a unit test) into this file and runs it natively
+// with `cargo kani playback`; it is empty otherwise.
+#[cfg(test)]
+mod playback_generated {
+    use super::*;
+    include!(concat!(env!("VERIF_KANI_DIR"), "/playback_simple.rs"));
+}
